@@ -16,7 +16,8 @@ func init() {
 			"(R2) the region-scanner id is reset (to noScannerID) only in update on the edge where the server reported no more results in the region, and in closeRegionScanner after - unless the scan itself is a closing scan - a close request carrying that very id (ScannerID(id), CloseScanner()) was started; other values are stored only by openRegionScanner and the constructor; " +
 			"(R3) the synchronous call closure of Close contains no blocking operation (the close request is sent with go); " +
 			"(R4) Next reports a non-EOF error only on a path on which the scanner was not closed when the error was produced (errors from peek come from fetch, reached only while open; the cancellation error is returned only on the not-closed edge), so an error is reported once and io.EOF afterwards; " +
-			"(R5) the renewer is cancelled before every fetch and in Close.",
+			"(R5) the renewer is cancelled before every fetch and in Close." +
+			" Added after the seeded-change rounds: (R1) isDone looks at more_results first (shared with C06.R2); (R2) the close request is keyed by the scanner's current start row and carries the current region-scanner id; (R5) the renew goroutine is started only on an edge where closed was tested false after the fetch (no scanner method runs between the test and the go statement).",
 		Residue:   "server-side lease state; that the asynchronous close request arrives",
 		Technique: "must-pass-through path search, who-writes tables on the scanner state, blocking-operation enumeration",
 		Run:       runC14,
